@@ -157,3 +157,93 @@ Section T.
     rewrite R3. eauto.
   Qed.
 End T.
+
+(* ---------------- rewrite.go never slices out of range ---------------- *)
+Definition aug_wf (n : nat) (a : aug) : Prop := aug_start a <= aug_end a /\ aug_end a <= n.
+Definition compat (a b : aug) : Prop :=
+  aug_end a <= aug_start b \/ (aug_end b <= aug_start a /\ aug_start b < aug_start a).
+
+Lemma aug_wfb_spec n a : aug_wfb n a = true <-> aug_wf n a.
+Proof. unfold aug_wfb, aug_wf. rewrite Bool.andb_true_iff, !Nat.leb_le. tauto. Qed.
+
+Lemma compatb_spec a b : compatb a b = true <-> compat a b.
+Proof. unfold compatb, compat. rewrite Bool.orb_true_iff, Bool.andb_true_iff, !Nat.leb_le, Nat.ltb_lt. tauto. Qed.
+
+(* sorted by start, each ending before the next starts, all within [lo, n] *)
+Fixpoint chain (n lo : nat) (l : list aug) : Prop :=
+  match l with
+  | [] => lo <= n
+  | a :: l' => lo <= aug_start a /\ aug_start a <= aug_end a /\ chain n (aug_end a) l'
+  end.
+
+Lemma chain_bound n lo l : chain n lo l -> lo <= n.
+Proof. revert lo. induction l as [|a l IH]; simpl; intros lo H; [exact H|]. destruct H as [H1 [H2 H3]]. apply IH in H3. lia. Qed.
+
+Lemma chain_weaken n lo lo' l : lo' <= lo -> chain n lo l -> chain n lo' l.
+Proof. destruct l as [|a l]; simpl; intros; [lia|]. intuition lia. Qed.
+
+(* inserting an augmentation found later than everything already sorted *)
+Lemma insert_chain n a : aug_wf n a -> forall l lo,
+  chain n lo l -> lo <= aug_start a -> Forall (fun x => compat x a) l -> chain n lo (insert_aug a l).
+Proof.
+  intros [Wa1 Wa2]. induction l as [|b l IH]; intros lo C Hlo Hc; cbn [insert_aug].
+  - simpl. repeat split; lia.
+  - simpl in C. destruct C as [C1 [C2 C3]]. inversion Hc as [|? ? Hb Hl]; subst.
+    destruct (Nat.ltb_spec (aug_start a) (aug_start b)) as [L|L].
+    + (* a goes before b: b, found earlier, must lie after a *)
+      simpl. assert (aug_end a <= aug_start b) as K by (destruct Hb as [Hb|[Hb1 Hb2]]; lia).
+      repeat split; try lia; exact C3.
+    + (* a goes somewhere after b *)
+      simpl. split; [exact C1|]. split; [exact C2|].
+      apply IH; [exact C3| |exact Hl].
+      destruct Hb as [Hb|[Hb1 Hb2]]; lia.
+Qed.
+
+Lemma insert_in a l x : In x (insert_aug a l) <-> x = a \/ In x l.
+Proof.
+  induction l as [|b l IH]; simpl; [intuition congruence|]. destruct (Nat.ltb _ _); simpl; [intuition congruence|]. rewrite IH. intuition congruence.
+Qed.
+
+Lemma sort_chain n : forall l acc,
+  augs_okb n l = true -> chain n 0 acc -> (forall x, In x acc -> Forall (compat x) l) ->
+  chain n 0 (fold_left (fun acc a => insert_aug a acc) l acc).
+Proof.
+  induction l as [|a l IH]; intros acc Hok Hc Hx; cbn [fold_left]; [exact Hc|].
+  cbn [augs_okb] in Hok. apply Bool.andb_true_iff in Hok as [Hok H3]. apply Bool.andb_true_iff in Hok as [H1 H2].
+  apply aug_wfb_spec in H1. apply IH; [exact H3| |].
+  - apply insert_chain; [exact H1|exact Hc|lia|].
+    apply Forall_forall. intros x Hin. specialize (Hx x Hin). inversion Hx; assumption.
+  - intros x Hin. apply insert_in in Hin as [->|Hin].
+    + apply Forall_forall. intros y Hy. rewrite forallb_forall in H2. apply compatb_spec, H2, Hy.
+    + specialize (Hx x Hin). inversion Hx; assumption.
+Qed.
+
+Lemma slice_ok src lo hi : lo <= hi -> hi <= length src -> exists seg, slice src lo hi = Some seg.
+Proof.
+  intros H1 H2. unfold slice.
+  destruct (Nat.leb_spec lo hi); [|lia]. destruct (Nat.leb_spec hi (length src)); [|lia]. simpl. eauto.
+Qed.
+
+Lemma rewrite_fold_ok src : forall l st,
+  chain (length src) (r_pos st) l ->
+  exists st', fold_left (rewrite_step src) l (Some st) = Some st' /\ r_pos st' <= length src.
+Proof.
+  induction l as [|a l IH]; intros st C; cbn [fold_left].
+  - exists st. split; [reflexivity|exact C].
+  - simpl in C. destruct C as [C1 [C2 C3]]. pose proof (chain_bound _ _ _ C3) as B.
+    destruct (slice_ok src (r_pos st) (aug_start a)) as [seg E]; [lia|lia|].
+    unfold rewrite_step at 2. rewrite E.
+    destruct a as [o|o br|s e named]; cbn [aug_end aug_start] in *;
+      match goal with |- context [fold_left _ l (Some ?st1)] => destruct (IH st1) as [st' [F L]]; [exact C3|]; exists st'; auto end.
+Qed.
+
+(* rewrite.go: on augmentation lists of the shape find produces, no slice is out of range *)
+Theorem rewrite_no_panic src augs :
+  augs_okb (length src) augs = true -> exists r, rewrite src augs = Some r.
+Proof.
+  intros Hok. unfold rewrite, sort_augs.
+  assert (chain (length src) 0 (fold_left (fun acc a => insert_aug a acc) augs [])) as C.
+  { apply sort_chain; [exact Hok|simpl; lia|intros x []]. }
+  destruct (rewrite_fold_ok src _ {| r_pos := 0; r_dst := []; r_tail := []; r_adjs := []; r_reduce := 0; r_augs := [] |} C) as [st' [F L]].
+  rewrite F. destruct (slice_ok src (r_pos st') (length src)) as [rest E]; [exact L|lia|]. rewrite E. eauto.
+Qed.
